@@ -5,9 +5,12 @@ import (
 	"fmt"
 	"os"
 	"path/filepath"
+	"runtime/debug"
+	"runtime/pprof"
 	"sort"
 	"strconv"
 	"strings"
+	"time"
 )
 
 // rsa: repository-specific static analyser for hanwen/reftable.
@@ -15,6 +18,17 @@ import (
 //   rsa explain <violation.json>
 
 func main() {
+	debug.SetGCPercent(400)
+	if pf := os.Getenv("RSA_PROF"); pf != "" {
+		f, _ := os.Create(pf)
+		pprof.StartCPUProfile(f)
+		go func() {
+			time.Sleep(30 * time.Second)
+			pprof.StopCPUProfile()
+			f.Close()
+			os.Exit(3)
+		}()
+	}
 	if len(os.Args) < 2 {
 		fmt.Fprintln(os.Stderr, "usage: rsa check|explain|debug …")
 		os.Exit(2)
@@ -145,7 +159,9 @@ func runFsproto(p *Program, only string) (*fsRules, []fsRun) {
 	var runs []fsRun
 	eps := fsEntryPoints(p)
 	// AutoCompact first: its result summary is used inside Stack.Add
-	sort.SliceStable(eps, func(i, j int) bool { return funcKey(eps[i]) == "(*Stack).AutoCompact" && funcKey(eps[j]) != "(*Stack).AutoCompact" })
+	sort.SliceStable(eps, func(i, j int) bool {
+		return funcKey(eps[i]) == "(*Stack).AutoCompact" && funcKey(eps[j]) != "(*Stack).AutoCompact"
+	})
 	for _, fn := range eps {
 		if only != "" && funcKey(fn) != only && !(funcKey(fn) == "(*Stack).AutoCompact" && only == "(*Stack).Add") {
 			continue
